@@ -220,6 +220,9 @@ where
     ensure!(other == display && display == other, "eq:equal_cells", "a display with the same 4096 cells compares unequal");
     let df = display.diff(&other);
     ensure!(df.affected_area().is_zero_sized() && df == MockDisplay::<Rgb888>::new(), "diff:not_empty", "diff of displays with equal cells is not empty: {:?}", df.affected_area());
+    // the assertion helpers agree with ==: no panic for equal displays / the display's own pattern
+    ensure!(catch(|| display.assert_eq(&other)).is_ok(), "assert_eq:panics_on_equal", "assert_eq panics although all 4096 cells agree");
+    ensure!(catch(|| display.assert_pattern(&rows)).is_ok(), "assert_pattern:panics_on_own_pattern", "assert_pattern panics on the rows of the display's own Debug output");
     // change one cell
     let q = Point::new(d.i(0, 63), d.i(0, 63));
     let old = model.get(&(q.x, q.y)).copied();
@@ -235,6 +238,7 @@ where
     };
     other.set_pixel(q, new);
     ensure!(other != display, "eq:different_cells", "displays differing in cell {:?} ({:?} vs {:?}) compare equal", q, old, new);
+    ensure!(catch(|| display.assert_eq(&other)).is_err(), "assert_eq:silent_on_difference", "assert_eq does not panic although cell {:?} differs ({:?} vs {:?})", q, old, new);
     let df = display.diff(&other);
     for y in 0..64 {
         for x in 0..64 {
